@@ -265,3 +265,154 @@ V("C34-unary-parser-unwrapped","C34",EV+"parsers.go","	n.p = acceptOnlySingleCal
 V("C34-new-multicall-parser-untabled","C34","pkg/innerring/processors/container/processor.go","	p.SetUnaryParser(containerEvent.RestoreRemoveContainerRequest)","	p.SetParser(func(ee []event.NotaryEvent) (event.Event, error) { return containerEvent.RestoreRemoveContainerRequest(ee[0]) })",rule="C34.R2")
 V("C34-announce-load-unchecked","C34","pkg/innerring/processors/container/process_announce_load.go","		cp.log.Error(\"announce load check failed\",\n			zap.Error(err),\n		)\n\n		return","		cp.log.Error(\"announce load check failed\",\n			zap.Error(err),\n		)",rule="C34.R4")
 V("C34-reputation-bad-signature-approved","C34","pkg/innerring/processors/reputation/process_put.go","		rp.log.Info(\"ignore reputation value\",\n			zap.String(\"reason\", \"invalid signature\"),\n		)\n\n		return","		rp.log.Info(\"ignore reputation value\",\n			zap.String(\"reason\", \"invalid signature\"),\n		)",rule="C34.R4")
+
+# ---- C01 / C06
+MB="pkg/local_object_storage/metabase/"
+V("C01-islocked-no-container-check","C01",MB+"lock.go","""		if containerMarkedGC(mBucket.Cursor()) {
+			return nil
+		}
+
+		locked =""","""		locked =""",rule="C01.R1")
+V("C01-isexpired-nonstrict","C01",MB+"exists.go","(currEpoch > objExpiration)","(currEpoch >= objExpiration)",rule="C01.R2")
+V("C01-nested-min","C01",MB+"exists.go","status = max(parentStatus, status)","status = min(parentStatus, status)",rule="C01.R4")
+V("C01-get-skips-status","C01",MB+"get.go","hdr, err = get(metaCursor, addr, true, raw, currEpoch)","hdr, err = get(metaCursor, addr, false, raw, currEpoch)",rule="C01.R1")
+V("C01-unfiltered-only-tombstones","C01",MB+"metadata.go","if objectStatus(mb.Cursor(), res[n].ID, curEpoch) != statusAvailable {","if objectStatus(mb.Cursor(), res[n].ID, curEpoch) == statusTombstoned {",rule="C01.R1")
+V("C01-exists-wrong-class","C01",MB+"exists.go","""	case statusTombstoned:
+		return false, logicerr.Wrap(apistatus.ObjectAlreadyRemoved{})
+	case statusExpired:
+		return false, ErrObjectIsExpired
+	}
+
+	if checkParent {""","""	case statusTombstoned:
+		return false, ErrObjectIsExpired
+	case statusExpired:
+		return false, logicerr.Wrap(apistatus.ObjectAlreadyRemoved{})
+	}
+
+	if checkParent {""",rule="C01.R3")
+V("C01-search-no-checker","C01",MB+"metadata.go","handleKV := objectcore.MetaDataKVHandler(&resHolder, attrSkr, gcCheck, fs, attrs, cursor, count)","_ = gcCheck\n\thandleKV := objectcore.MetaDataKVHandler(&resHolder, attrSkr, nil, fs, attrs, cursor, count)",rule="C01.R1")
+V("C01-handler-ignores-checker","C01","pkg/core/object/metadata.go","""		if additionalCheck != nil && !additionalCheck(oid.ID(id)) {
+			return true
+		}""","""		if additionalCheck != nil && n > 0 && !additionalCheck(oid.ID(id)) {
+			return true
+		}""",rule="C01.R1")
+V("C01-ec-resolve-before-status","C01",MB+"ec.go","""	switch objectStatus(crs, parent, db.epochState.CurrentEpoch()) {
+	case statusGCMarked:
+		return oid.ID{}, apistatus.ErrObjectNotFound
+	case statusTombstoned:""","""	switch objectStatus(crs, parent, db.epochState.CurrentEpoch()) {
+	case statusTombstoned:""",rule="C01.R")
+V("C01-ingarbage-redundant-mark-counts","C01",MB+"exists.go","if bytes.Equal(k, garbageMark) && !bytes.Equal(v, redundantGarbageMark) {","if bytes.Equal(k, garbageMark) && len(v) >= 0 {",rule="C01.R4")
+V("C01-new-view-unclassified","C01",MB+"select.go","func iterPrefixedIDs(","""func (db *DB) AllIDs(cnr cid.ID) (res []oid.ID) {
+	_ = db.boltDB.View(func(tx *bbolt.Tx) error {
+		if b := tx.Bucket(metaBucketKey(cnr)); b != nil {
+			for id := range iterPrefixedIDs(b.Cursor(), []byte{metaPrefixID}, oid.ID{}) {
+				res = append(res, id)
+			}
+		}
+		return nil
+	})
+	return
+}
+
+func iterPrefixedIDs(""",rule="C01.R0")
+V("C01-silent-exists-if-chain","C01",MB+"exists.go","""	switch objectStatus(metaCursor, id, currEpoch) {
+	case statusGCMarked:
+		return false, logicerr.Wrap(fmt.Errorf("%w: %w", apistatus.ObjectNotFound{}, errors.New("object marked as garbage")))
+	case statusTombstoned:
+		return false, logicerr.Wrap(apistatus.ObjectAlreadyRemoved{})
+	case statusExpired:
+		return false, ErrObjectIsExpired
+	}
+""","""	st := objectStatus(metaCursor, id, currEpoch)
+	if st == statusTombstoned {
+		return false, logicerr.Wrap(apistatus.ObjectAlreadyRemoved{})
+	}
+	if st == statusGCMarked {
+		return false, logicerr.Wrap(fmt.Errorf("%w: %w", apistatus.ObjectNotFound{}, errors.New("object marked as garbage")))
+	}
+	if st == statusExpired {
+		return false, ErrObjectIsExpired
+	}
+""",expect="silent")
+V("C06-list-no-garbage-check","C06",MB+"list.go","""		if inGarbage(mCursor, obj) != statusAvailable {
+			continue
+		}
+""","""		if inGarbage(mCursor, obj) == statusTombstoned {
+			continue
+		}
+""",rule="C06.R1")
+V("C06-list-dead-container","C06",MB+"list.go","""	if containerMarkedGC(c) {
+		return to, cursor
+	}
+
+	fillIDTypePrefix(typePrefix)""","""	fillIDTypePrefix(typePrefix)""",rule="C06.R1")
+V("C06-cursor-after-skip","C06",MB+"list.go","""		cursor.lastObjectID = obj
+		if inGarbage(mCursor, obj) != statusAvailable {
+			continue
+		}
+""","""		if inGarbage(mCursor, obj) != statusAvailable {
+			continue
+		}
+		cursor.lastObjectID = obj
+""",rule="C06.R3")
+V("C06-no-skip-equal","C06",MB+"select.go","""		k, _ = cur.Seek(seekPos)
+		if bytes.Equal(k, seekPos) {
+			k, _ = cur.Next() // We are looking for objects _after_ the offset.
+		}""","""		k, _ = cur.Seek(seekPos)""",rule="C06.R3")
+V("C06-reset-always","C06",MB+"list.go","""		if containerID != cursor.containerID {
+			cursor.lastObjectID = oid.ID{} // Reset for the next bucket.
+		}""","""		cursor.lastObjectID = oid.ID{} // Reset for the next bucket.""",rule="C06.R3")
+
+# ---- strengthened rules (C33.R5, C34.R3b, C38.R2, C46.R4, C47.R6)
+V("C34-silent-bound-form","C34","pkg/morph/event/container/notary_requests.go","""	switch l := len(contractCalls); l {
+	case 1:
+	case 2:
+		withOptionalEacl = true
+	default:
+		return nil, fmt.Errorf("unexpected number of contract calls: %d", l)
+	}
+""","""	if l := len(contractCalls); l == 0 || l > 2 {
+		return nil, fmt.Errorf("unexpected number of contract calls: %d", l)
+	}
+	withOptionalEacl = len(contractCalls) == 2
+""",expect="silent")
+V("C34-unbounded-calls","C34","pkg/morph/event/container/notary_requests.go","""	switch l := len(contractCalls); l {
+	case 1:
+	case 2:
+		withOptionalEacl = true
+	default:
+		return nil, fmt.Errorf("unexpected number of contract calls: %d", l)
+	}
+""","""	if l := len(contractCalls); l == 0 {
+		return nil, fmt.Errorf("unexpected number of contract calls: %d", l)
+	}
+	withOptionalEacl = len(contractCalls) > 1
+""",rule="C34.R3")
+V("C38-composite-early-ok","C38","pkg/innerring/processors/netmap/nodevalidation/validator.go","""	for _, v := range c.validators {""","""	if len(ni.PublicKey()) == 0 {
+		return nil
+	}
+	for _, v := range c.validators {""",rule="C38.R2")
+V("C33-n3-callback-shortcut","C33","internal/crypto/requests.go","""		verifScriptHash := hash.Hash160(verifScript)
+		return""","""		verifScriptHash := hash.Hash160(verifScript)
+		if len(invocScript) == 0 {
+			return nil
+		}
+		return""",rule="C33.R5")
+V("C33-n3-hash-of-scripts","C33","internal/crypto/requests.go","return sha256.Sum256(data)","return sha256.Sum256(verifScript)",rule="C33.R5")
+V("C46-no-reslice","C46","pkg/local_object_storage/shard/restore.go","""		} else {
+			data = data[:sz]
+		}""","""		}""",rule="C46.R4")
+V("C47-cache-before-error","C47","cmd/neofs-node/container.go","""	epoch, err := p.balanceCli.GetUnpaidContainerEpoch(cID)
+	if err != nil {
+		return 0, fmt.Errorf("FS chain RPC call: %w", err)
+	}
+	p.statuses[cID] = epoch
+""","""	epoch, err := p.balanceCli.GetUnpaidContainerEpoch(cID)
+	p.statuses[cID] = epoch
+	if err != nil {
+		return 0, fmt.Errorf("FS chain RPC call: %w", err)
+	}
+""",rule="C47.R6")
+V("C47-paid-on-unpaid-event","C47","cmd/neofs-node/container.go","""			p.statuses[cID] = int64(ev.Epoch)
+		} else {""","""			p.statuses[cID] = -1
+		} else {""",rule="C47.R6")
